@@ -451,6 +451,11 @@ func loadYamlModel(ctx context.Context, config types.ConfigDetails, opts *Option
 		if err != nil {
 			return nil, err
 		}
+		// path resolution can reveal duplicates, typically `./a.env` and `a.env` in one env_file list
+		dict, err = override.EnforceUnicity(dict)
+		if err != nil {
+			return nil, err
+		}
 	}
 	ResolveEnvironment(dict, config.Environment)
 
